@@ -192,3 +192,66 @@ func H_c08_g6long_q() { c08LongHeader(2, false) }
 func H_c08_s6long_q() { c08LongHeader(1, true) }
 func H_c08_g6long_t() { c08LongHeader(3, false) }
 func H_c08_s6long_t() { c08LongHeader(2, true) }
+
+// c08G6Deep: longer strings with guarded merging: the decoded edge set stays symbolic (no
+// fork per edge), so the path tree is only the byte-range checks and the declared n.
+// Obligations: no panic; on success N() is the declared n, M() and Degrees() equal the
+// symbolic adjacency read through IsEdge, IsEdge is symmetric, and re-encoding decodes to
+// the same edge set.  (Neighbours lists are checked by the short-string harness.)
+func c08G6Deep(L int) {
+	l := rt.Choice("len", L+1)
+	s := rt.String("s", l)
+	var g *DenseGraph
+	var err error
+	p, msg := rt.Panics(func() { g, err = Graph6Decode(s) })
+	rt.Check(!p, "Graph6Decode panicked: "+msg)
+	if p || err != nil {
+		rt.Reach("end")
+		return
+	}
+	n := 0
+	if l > 0 {
+		var ok bool
+		n, _, ok = refDeclaredN(s)
+		rt.Check(ok, "Graph6Decode succeeded on an incomplete size header")
+		n = rt.Concrete(n)
+	}
+	rt.Check(g.N() == n, "Graph6Decode: wrong order")
+	if g.N() != n {
+		return
+	}
+	m := 0
+	deg := make([]int, n)
+	for i := 0; i < n; i++ {
+		for j := i + 1; j < n; j++ {
+			e := g.IsEdge(i, j)
+			rt.Check(g.IsEdge(j, i) == e, "IsEdge not symmetric")
+			b := rt.B2I(e)
+			m += b
+			deg[i] += b
+			deg[j] += b
+		}
+	}
+	if n <= 6 {
+		// for larger n this is the equivalence of two adder networks over up to 36 bits, which the
+		// solvers do not decide in 30 s; M() is checked by the short-string harness
+		rt.Check(g.M() == m, "Graph6Decode: M() differs from the number of edges")
+	}
+	d := g.Degrees()
+	for v := 0; v < n && v < len(d); v++ {
+		rt.Check(d[v] == deg[v], "Graph6Decode: Degrees() differ from the adjacency")
+	}
+	g2, err2 := Graph6Decode(Graph6Encode(g))
+	rt.Check(err2 == nil, "re-encoded graph6 does not decode")
+	if err2 == nil && g2.N() == n {
+		for i := 0; i < n; i++ {
+			for j := i + 1; j < n; j++ {
+				rt.Check(g2.IsEdge(i, j) == g.IsEdge(i, j), "graph6 decode-encode-decode changes an edge")
+			}
+		}
+	}
+	rt.Reach("end")
+}
+
+func H_c08_g6deep_q() { c08G6Deep(8) }
+func H_c08_g6deep_t() { c08G6Deep(14) }
